@@ -1,6 +1,8 @@
 package main
 
 import (
+	"github.com/atlassian/escalator/pkg/controller"
+
 	"encoding/json"
 	"fmt"
 	"math/rand"
@@ -150,10 +152,15 @@ func scanEngine(prop, tier string, rng *rand.Rand, replay []json.RawMessage) (*E
 		Extra: map[string]interface{}{}}
 	t0 := time.Now()
 	skipped := map[string]int{}
+	excluded := map[string]int{}
 	nhist, nhistScans := 0, 0
 	pairs := map[string][]pairSide{}
 	for _, c := range cases {
 		if c.Single != nil {
+			if x := excludedShape(prop, c.Single); x != "" && !genInclude(x) && replay == nil {
+				excluded[x]++
+				continue
+			}
 			obs, err := runScanSpec(c.Single)
 			if err != nil {
 				return nil, fmt.Errorf("spec %q: %v", c.Single.Note, err)
@@ -179,6 +186,10 @@ func scanEngine(prop, tier string, rng *rand.Rand, replay []json.RawMessage) (*E
 				skipped[scans[k].Skipped]++
 				continue
 			}
+			if x := excludedShape(prop, scans[k].Spec); x != "" && !genInclude(x) && replay == nil {
+				excluded[x]++
+				continue
+			}
 			nhistScans++
 			coq, key, nt, _ := emitScanCase(scans[k].Spec, &scans[k].Obs)
 			sp, _ := json.Marshal(c.Hist.truncated(k))
@@ -197,6 +208,9 @@ func scanEngine(prop, tier string, rng *rand.Rand, replay []json.RawMessage) (*E
 	if len(skipped) > 0 {
 		res.Extra["history_scans_skipped_for_clock_margin"] = skipped
 	}
+	if len(excluded) > 0 {
+		res.Extra["excluded_recorded_disagreements"] = excluded
+	}
 	res.Extra["harness_seconds"] = time.Since(t0).Seconds()
 	return res, nil
 }
@@ -208,4 +222,52 @@ func sortedStrings(m map[string]bool) []string {
 	}
 	sort.Strings(out)
 	return out
+}
+
+// excludedShape names the recorded model/code disagreement (design-notes/gen-notes.md, harness/corpus/<name>.json) the
+// scan matches, or "".  Such scans are dropped from the default streams; VERIF_GEN_INCLUDE=<name> keeps them.
+func excludedShape(prop string, s *scanSpec) string {
+	for _, g := range s.Groups {
+		// stale_lock_flag_early_return (C02 only; model and code agree): isLocked is set although the cool-down is over and the
+		// scan leaves through an early return (both empty / node count outside min..max) before scaleUpLock.locked() runs, so the
+		// flag stays set; clause 2 of check_C02_group ("outside the cool-down the lock ends free or freshly armed") fails.
+		if prop == "C02" && g.State.Locked && (g.State.LockAgeNs == nil || *g.State.LockAgeNs >= int64(g.Opts.ScaleUpCoolDownPeriodDuration())) {
+			nn, np := 0, 0
+			for _, n := range s.Nodes {
+				if n.Labels[g.Opts.LabelKey] == g.Opts.LabelValue {
+					nn++
+				}
+			}
+			filter := controller.NewPodAffinityFilterFunc(g.Opts.LabelKey, g.Opts.LabelValue)
+			if g.Opts.Name == controller.DefaultNodeGroup {
+				filter = controller.NewPodDefaultFilterFunc()
+			}
+			for _, p := range s.Pods {
+				if filter(p) {
+					np++
+				}
+			}
+			mn, mx := g.Opts.MinNodes, g.Opts.MaxNodes
+			if mn == 0 && mx == 0 {
+				for _, a := range s.Cloud {
+					if a.Name == g.Opts.CloudProviderGroupName {
+						mn, mx = int(a.Min), int(a.Max)
+					}
+				}
+			}
+			if (nn == 0 && np == 0) || nn < mn || nn > mx {
+				return "stale_lock_flag_early_return"
+			}
+		}
+		// zero_created_zero_lastout: registration-lag lookup with lastScaleOut = zero time and a node whose creation
+		// timestamp is the zero time: Go's Sub gives 0 (not newer), the model's newer_than None says newer.
+		if g.State.ScaleDelta > 0 && g.State.LastOutAgeNs == nil {
+			for _, n := range s.Nodes {
+				if n.CreationTimestamp.IsZero() && n.Labels[g.Opts.LabelKey] == g.Opts.LabelValue {
+					return "zero_created_zero_lastout"
+				}
+			}
+		}
+	}
+	return ""
 }
